@@ -42,7 +42,8 @@ ASSUMPTIONS = [
 ]
 EXPECTED_PROBES = ["probe.tie_prerun_vs_inrun", "probe.cancelled_skipped", "probe.past_discarded",
                    "probe.daemon_left_pending", "probe.generator_resumed", "probe.crashed_target_skipped",
-                   "probe.events_created_before_simulation", "probe.cancelled_after_schedule"]
+                   "probe.events_created_before_simulation", "probe.cancelled_after_schedule",
+                   "probe.event_object_retimed_and_returned"]
 SHRINK_SKIP = ("n_entities", "n_kinds")
 
 
@@ -70,6 +71,9 @@ def _validate(sc):
         for e in h.get("emits", []) + h.get("sched", []) + [x for s in h.get("steps", []) for x in s.get("emits", [])]:
             if not ok_emit(e):
                 raise InvalidScenario("emit out of range")
+        ru = h.get("reuse")
+        if ru and ru.get("to") is not None and not 0 <= ru["to"] < n:
+            raise InvalidScenario("reuse target out of range")
         for e in h.get("crash", []) + h.get("uncrash", []):
             if not 0 <= e < n:
                 raise InvalidScenario("crash out of range")
@@ -116,7 +120,7 @@ def compare(sc, pr, summary, ref) -> tuple[str | None, str]:
     E = pr.log
     last = -1
     for uid, step, clk, evt in E:
-        if step == -1 and clk != evt:
+        if step < 0 and clk != evt:
             return "clock-ne-event-time", f"uid={uid} delivered with clock={clk} but event.time={evt}"
         if clk < last:
             return "clock-backwards", f"clock went from {last} to {clk}"
@@ -139,7 +143,7 @@ def compare(sc, pr, summary, ref) -> tuple[str | None, str]:
                 return "order/time", f"position {i}: engine {e} vs reference {r}"
 
             def phase(x):
-                if x[1] != -1:
+                if x[1] > 0:
                     return "cont"
                 return ref.registry[x[0]]["phase"]
 
@@ -180,7 +184,7 @@ def run(sc):
         raise
     sig, msg = compare(sc, pr, summary, ref)
     h = hashlib.blake2b(repr(pr.log).encode(), digest_size=12).hexdigest()
-    has_gen = any(s != -1 for (_, s, _, _) in pr.log)
+    has_gen = any(s > 0 for (_, s, _, _) in pr.log)
     counters = {
         "probe.tie_prerun_vs_inrun": int(_tie_pre_in(ref)),
         "probe.cancelled_skipped": int(ref.cancelled_popped > 0),
@@ -190,6 +194,7 @@ def run(sc):
         "probe.crashed_target_skipped": int(ref.processed > len(ref.log)),
         "probe.events_created_before_simulation": int(0 < (len(sc["initial"]) if sc.get("create_before_sim") is True else int(sc.get("create_before_sim") or 0)) < len(sc["initial"])),
         "probe.cancelled_after_schedule": int(any(i.get("cancel") == "late" for i in sc["initial"])),
+        "probe.event_object_retimed_and_returned": int(any(x[1] < -1 for x in ref.log)),
         f"mode.{sc.get('mode')}": 1,
         "deliveries_past_end_time_observed": sum(1 for x in pr.log if sc.get("end") is not None and x[2] > sc["end"]),
     }
@@ -207,6 +212,6 @@ def _tie_pre_in(ref) -> bool:
     """Did a pre-run event and an in-run event share a delivery timestamp?"""
     by_t = {}
     for uid, step, t in ref.log:
-        ph = "cont" if step != -1 else ref.registry[uid]["phase"]
+        ph = "cont" if step > 0 else ref.registry[uid]["phase"]
         by_t.setdefault(t, set()).add(ph)
     return any("prerun" in s and len(s) > 1 for s in by_t.values())
